@@ -49,6 +49,9 @@ pub enum Act {
     Interrupt,
     /// Drop the call future / the stream now (abnormal end).
     Abort,
+    /// Only in `coop` runs: the polling task returns to the tokio scheduler (end
+    /// of a task poll: deferred wake-ups are delivered, the budget is renewed).
+    Yield,
 }
 
 #[derive(Clone, Debug, PartialEq, Eq, Hash, Serialize, Deserialize)]
@@ -364,6 +367,33 @@ pub trait Stepper {
     fn engine_violations(&self) -> Vec<EngineViolation>;
     /// Statistics for labels: polls performed.
     fn polls(&self) -> usize;
+    /// While deferred, observations (`Quiet` markers, deadlock verdict, end-of-stream
+    /// checks) are not made after each action but only when `observe` is called:
+    /// inside a tokio task poll wake-ups caused by an exhausted budget are
+    /// delivered when the task yields.
+    fn set_deferred(&mut self, on: bool);
+    fn observe(&mut self);
+    /// Record the end of a task poll in the action list.
+    fn note_yield(&mut self);
+}
+
+thread_local! {
+    static RT: tokio::runtime::Runtime = tokio::runtime::Builder::new_current_thread()
+        .build()
+        .expect("tokio current-thread runtime");
+}
+
+/// Run `f` inside one tokio task poll (fresh cooperative budget), then yield to
+/// the scheduler once so that every wake-up deferred by tokio during `f` has been
+/// delivered when this returns.
+pub fn in_task_poll<R>(f: impl FnOnce() -> R) -> R {
+    RT.with(|rt| {
+        rt.block_on(async move {
+            let r = f();
+            tokio::task::yield_now().await;
+            r
+        })
+    })
 }
 
 fn panic_msg(p: Box<dyn std::any::Any + Send>) -> String {
@@ -388,6 +418,7 @@ pub struct Runner<'g> {
     livelock_bound: usize,
     ret: Option<Ret>,
     acts: Vec<Act>,
+    deferred: bool,
 }
 
 impl<'g> Runner<'g> {
@@ -568,6 +599,7 @@ impl<'g> Runner<'g> {
             livelock_bound: 100 * (n + e) + 10_000,
             ret: None,
             acts: Vec::new(),
+            deferred: false,
         }
     }
 
@@ -590,8 +622,16 @@ impl<'g> Runner<'g> {
     }
 
     fn note_quiet(&mut self) {
-        if self.ret.is_none() && self.polled && !self.woken() {
+        if self.deferred {
+            return;
+        }
+        if self.ret.is_none() && self.polled && self.fut.is_some() && !self.woken() {
             self.sh.borrow_mut().trace.push(Ev::Quiet);
+            if self.cands().is_empty() {
+                // pending, no wake-up signalled, nothing left that could signal one
+                std::mem::forget(self.fut.take());
+                self.ret = Some(Ret::Deadlock);
+            }
         }
     }
 }
@@ -658,10 +698,6 @@ impl Stepper for Runner<'_> {
                         if self.polls_since_external > self.livelock_bound {
                             std::mem::forget(self.fut.take());
                             self.ret = Some(Ret::Livelock);
-                        } else if self.stuck() {
-                            self.sh.borrow_mut().trace.push(Ev::Quiet);
-                            std::mem::forget(self.fut.take());
-                            self.ret = Some(Ret::Deadlock);
                         } else {
                             self.note_quiet();
                         }
@@ -713,7 +749,17 @@ impl Stepper for Runner<'_> {
                 }
                 true
             }
+            Act::Yield => false,
         }
+    }
+    fn set_deferred(&mut self, on: bool) {
+        self.deferred = on;
+    }
+    fn observe(&mut self) {
+        self.note_quiet();
+    }
+    fn note_yield(&mut self) {
+        self.acts.push(Act::Yield);
     }
     fn acts(&self) -> &[Act] {
         &self.acts
@@ -761,6 +807,7 @@ pub struct Consumer<'g> {
     ret: Option<Ret>,
     acts: Vec<Act>,
     viol: Vec<EngineViolation>,
+    deferred: bool,
 }
 
 impl<'g> Consumer<'g> {
@@ -810,6 +857,7 @@ impl<'g> Consumer<'g> {
             ret,
             acts: Vec::new(),
             viol: Vec::new(),
+            deferred: false,
         }
     }
 
@@ -822,7 +870,29 @@ impl<'g> Consumer<'g> {
     }
 
     fn note_quiet(&mut self) {
+        if self.deferred {
+            return;
+        }
         if self.stream_live() && self.last_pending && !self.woken() {
+            // A Pending without any wake-up signalled: the end-of-stream clauses are
+            // judged here (inside a tokio task an exhausted budget may legitimately
+            // answer Pending *with* a wake-up where None is due).
+            if self.yielded.len() == self.n && !self.saw_intr_item {
+                let msg = format!(
+                    "all {} functions were yielded but poll_next returned Pending instead of None",
+                    self.n
+                );
+                if !self.viol.iter().any(|v| v.kind == "pending-after-all-yielded") {
+                    self.violation("C05", "pending-after-all-yielded", msg);
+                }
+            }
+            if self.saw_intr_item && !self.viol.iter().any(|v| v.kind == "pending-after-interrupted-item") {
+                self.violation(
+                    "C08",
+                    "pending-after-interrupted-item",
+                    "poll after the Interrupted item returned Pending instead of None".into(),
+                );
+            }
             self.trace.push(Ev::Quiet);
         }
     }
@@ -894,20 +964,6 @@ impl Stepper for Consumer<'_> {
                     }
                     Ok(Poll::Pending) => {
                         self.last_pending = true;
-                        if self.yielded.len() == self.n && !self.saw_intr_item {
-                            self.violation(
-                                "C05",
-                                "pending-after-all-yielded",
-                                format!("all {} functions were yielded but poll_next returned Pending instead of None", self.n),
-                            );
-                        }
-                        if self.saw_intr_item {
-                            self.violation(
-                                "C08",
-                                "pending-after-interrupted-item",
-                                "poll after the Interrupted item returned Pending instead of None".into(),
-                            );
-                        }
                         self.note_quiet();
                     }
                     Ok(Poll::Ready(None)) => {
@@ -1013,7 +1069,17 @@ impl Stepper for Consumer<'_> {
                 }
                 true
             }
+            Act::Yield => false,
         }
+    }
+    fn set_deferred(&mut self, on: bool) {
+        self.deferred = on;
+    }
+    fn observe(&mut self) {
+        self.note_quiet();
+    }
+    fn note_yield(&mut self) {
+        self.acts.push(Act::Yield);
     }
     fn acts(&self) -> &[Act] {
         &self.acts
